@@ -64,6 +64,7 @@ def build(case):
     F = rng.integers(-4, 5, (n, nf)).astype(float)
     if case.get("cforce"):
         F = F + 1j * rng.integers(-4, 5, (n, nf))
+    F = F * float(case.get("fscale", 1.0))         # any units: the response is linear in the force
     return dict(n=n, m=m, b=b, k=k, B=B, rb=rb, rf=rf, el=el, F=F)
 
 
@@ -459,6 +460,7 @@ def freq_cases(draw, form, psd=False):
             "kvec": draw(st.booleans()), "pre_eig": pre_eig, "cpl": draw(st.sampled_from([0.05, 0.3, 0.8]))}
     case["fpack"] = draw(st.sampled_from(["same", "same", "int", "list", "fortran", "strided", "readonly"]))
     case["ppack"] = draw(st.sampled_from(util.PART_FORMS))
+    case["fscale"] = draw(st.sampled_from([1.0, 1.0, 1.0, 1e-12, 2.0 ** -30, 1e10]))
     case["freq_list"] = draw(st.booleans())
     if not hyst and not case["cmass"] and not psd and draw(st.booleans()):
         case["h"] = draw(st.sampled_from([0.01, 0.001, 0.1]))
